@@ -85,6 +85,16 @@ def exact_limit(lim):
     return ("q", Fraction(float(lim[1])))
 
 
+class _Hable:
+    """a source that is neither H nor P but can produce a histogram (dyce.h.HableT)"""
+
+    def __init__(self, h):
+        self._h = h
+
+    def h(self):
+        return self._h
+
+
 class Built:
     """the real dyce objects of a program, plus the presented result lists"""
 
@@ -94,12 +104,19 @@ class Built:
 
         self.case = case
         self.objs, self.presented, self.totals, self.owner = [], [], [], {}
+        self.raw = {}
         for i, s in enumerate(case["sources"]):
             if s["t"] == "h":
                 o = C.dec_h(s["items"])
                 pres = [(x, c) for x, c in o.items()]
                 tot = o.total
                 self.owner[id(o)] = i
+                if s.get("raw") == "map":
+                    # a plain mapping: the evaluator builds H(source) itself; the callback must see that histogram
+                    self.raw[i] = o
+                    o = dict(o.items())
+                elif s.get("raw") == "hable":
+                    o = _Hable(o)  # anything with .h(): the evaluator uses source.h()
             else:
                 p = P(*[C.dec_h(h) for h in s["dice"]])
                 self.owner[id(p)] = i
@@ -216,7 +233,11 @@ class Built:
             for pos, (res, s) in enumerate(zip(results, sl["srcs"])):
                 src_obj = getattr(res, "h", None) if hasattr(res, "h") else getattr(res, "p", None)
                 val = res.outcome if hasattr(res, "outcome") else res.roll
-                if self.owner.get(id(src_obj)) != s or val not in self.presented[s][1]:
+                if s in self.raw:
+                    own = isinstance(src_obj, type(self.raw[s])) and tuple(src_obj.items()) == tuple(self.raw[s].items())
+                else:
+                    own = self.owner.get(id(src_obj)) == s
+                if not own or val not in self.presented[s][1]:
                     self.binding_errors += 1
                     raise AssertionError("parameter %d did not receive the result of its own source" % pos)
                 ids.append(self.presented[s][1][val])
